@@ -11,6 +11,8 @@ mod dbrun;
 mod failrun;
 mod dbsmall;
 mod gen_types;
+mod gen_user_types;
+mod usertypes;
 mod rng;
 mod sexp;
 mod watch;
@@ -23,6 +25,8 @@ mod walrun;
 mod crashrun;
 #[cfg(agdb_verif)]
 mod storrun;
+#[cfg(agdb_verif)]
+mod concrun;
 
 use std::collections::BTreeMap;
 use std::io::Write;
@@ -133,6 +137,34 @@ fn main() {
             write_lines(&format!("{}/oracle.txt", out), &o.oracle);
             o.stats.insert("snapshots".into(), o.snapshots);
             write_stats(&format!("{}/stats.json", out), &o.stats, o.snapshots, o.nontrivial, &o.samples);
+        }
+        #[cfg(agdb_verif)]
+        "c23" => {
+            // --dbs D --n QUERIES --threads T --small M
+            let mut o = concrun::Out::new();
+            let mut r = rng::Rng::new(seed);
+            let mut sr = r.fork();
+            let mut br = r.fork();
+            concrun::run_small(&mut sr, &out, arg(&args, "--small", "100").parse().unwrap(), &mut o);
+            // the small cases are on disk before the stress starts: a stress run that dies (garbage reads can abort
+            // the process on an impossible allocation) is attributed through progress.txt by checks/c23.py
+            write_lines(&format!("{}/cases.txt", out), &o.cases);
+            write_lines(&format!("{}/impl.txt", out), &o.imp);
+            write_lines(&format!("{}/oracle.txt", out), &o.oracle);
+            concrun::run_stress(&mut br, &out, arg(&args, "--dbs", "6").parse().unwrap(), n, arg(&args, "--threads", "32").parse().unwrap(), &mut o);
+            write_lines(&format!("{}/oracle.txt", out), &o.oracle);
+            write_stats(&format!("{}/stats.json", out), &o.stats, o.evaluations, o.nontrivial, &o.samples);
+        }
+        "c22" => {
+            use gen_user_types::*;
+            let mut c = usertypes::Ctx { rng: rng::Rng::new(seed), n, dir: out.clone(), cases: vec![], imp: vec![], oracle: vec![],
+                                         stats: BTreeMap::new(), samples: vec![], nontrivial: 0, evaluations: 0 };
+            fn go<T: usertypes::Ut + agdb::DbType<ValueType = T>>(c: &mut usertypes::Ctx) { usertypes::run_type::<T>(c) }
+            for_each_user_type!(go, &mut c);
+            write_lines(&format!("{}/cases.txt", out), &c.cases);
+            write_lines(&format!("{}/impl.txt", out), &c.imp);
+            write_lines(&format!("{}/oracle.txt", out), &c.oracle);
+            write_stats(&format!("{}/stats.json", out), &c.stats, c.evaluations, c.nontrivial, &c.samples);
         }
         "fail" => {
             let mut o = failrun::Out { live: Some(std::fs::OpenOptions::new().create(true).append(true).open(format!("{}/oracle_live.txt", out)).unwrap()), oracle: vec![], stats: BTreeMap::new(), samples: vec![], nontrivial: 0, runs: 0 };
